@@ -254,7 +254,7 @@ func genRewriteStage(r *vk.RNG, d *Dataset, allowFail, first bool) Stage {
 	switch r.Intn(7) {
 	case 0: // rename(s) over disjoint labels
 		perm := r.Perm(len(c07Labels))
-		k := r.Range(1, 2)
+		k := r.Range(1, 3)
 		pool := append([]string{}, c07Labels...)
 		pool = append(pool, "fresh", "nosuch2")
 		var pairs [][2]string
@@ -266,14 +266,19 @@ func genRewriteStage(r *vk.RNG, d *Dataset, allowFail, first bool) Stage {
 			}
 			pairs = append(pairs, [2]string{dst, src})
 		}
-		// keep renames of one stage independent of each other
+		// renames of one stage apply in order (`a=b, b=c` shifts); the parser rejects a repeated target
 		seen := map[string]bool{}
-		for _, p := range pairs {
-			if seen[p[0]] || seen[p[1]] {
-				pairs = pairs[:1]
+		for i, p := range pairs {
+			if seen[p[0]] {
+				pairs = pairs[:i]
 				break
 			}
-			seen[p[0]], seen[p[1]] = true, true
+			seen[p[0]] = true
+		}
+		if r.Chance(1, 4) {
+			// explicit shift / swap chains
+			a, b, c3 := c07Labels[perm[0]], c07Labels[perm[1]], c07Labels[perm[2]]
+			pairs = vk.Pick(r, [][][2]string{{{a, b}, {b, c3}}, {{a, b}, {b, a}}, {{b, a}, {c3, b}}, {{"fresh", a}, {a, b}, {b, c3}}})
 		}
 		return stRename(pairs)
 	case 1:
@@ -293,7 +298,7 @@ func runC07(r *vk.Run) {
 	r.SetRule("records with label sets from an adversarial pool (empty, spaces, quotes, unicode, template-like text) and plain or SGR-coloured lines x pipelines of 1..3 rewriting stages " +
 		"(label_format renames, label_format/line_format templates from a family the harness evaluates itself incl. __line__/__timestamp__ and run-time failing templates, drop/keep with names and value matchers, decolorize), optionally followed by a filter on the rewritten label/line; " +
 		"evaluated by Engine.Eval and by per-stage expected-effect closures. non-trivial = distinct (records, pipeline) where at least one record's line or label set changes or is flagged.")
-	r.Assume("one label_format stage is all-renames or one template (mixed/ordered cross references inside one stage are not fixed by the statement)", "keep leaves __error__ labels undecided (Loki preserves them)", "templates only over valid UTF-8 label values")
+	r.Assume("one label_format stage is all-renames (applied in order, chains included) or one template", "keep leaves __error__ labels undecided (Loki preserves them)", "templates only over valid UTF-8 label values")
 	msg, err := calibrateMsgLabel()
 	if err != nil {
 		r.Inconclusive(err.Error())
